@@ -722,6 +722,14 @@ def run_tree(tr, cmds):
             trees = [n] + [mk_tree(x) for x in c[2:]]
             hist = list(enumerate(trees))
             out.append('%d.hist=%s' % (k, EC(lambda: ','.join('%d:%s' % (key, hexr(x)) for key, x in get_target_history(hist, g)))))
+        elif op == 'piter':
+            from remerkleable.readonly_iters import PackedIter
+            T, depth, ln = mk_type(c[1]), int(c[2]), int(c[3])
+            out.append('%d.piter=%s' % (k, E(lambda: ','.join(str(int(x)) for x in PackedIter(n, depth, ln, T)))))
+        elif op == 'biter':
+            from remerkleable.readonly_iters import BitfieldIter
+            depth, ln = int(c[1]), int(c[2])
+            out.append('%d.biter=%s' % (k, E(lambda: ''.join('1' if x else '0' for x in BitfieldIter(n, depth, ln)))))
         elif op == 'niter':
             depth, ln = int(c[1]), int(c[2])
             out.append('%d.niter=%s' % (k, E(lambda: ','.join(hexr(x) for x in NodeIter(n, depth, ln)))))
